@@ -23,7 +23,11 @@ ISOLATE = True
 BUDGET = {'quick': (8, 160), 'thorough': (16, 1500)}
 RULE = ('A case is an interpreted op list over {finalize; unlock_config block with a nested op '
         'list as body and exit path in {normal, raise Exception, raise BaseException, a failing '
-        'Gin call propagating, break}; bind_parameter (str/tuple key, 2 spellings, scoped); '
+        'Gin call propagating, break}; the same block in decorator form -- one '
+        '`gin.unlock_config()` manager object decorating a function that re-enters itself 1-3 '
+        'levels deep, the innermost level running a nested op list and leaving normally, by an '
+        'exception through every level, or by one the level above catches; called 1-2 times; '
+        'bind_parameter (str/tuple key, 2 spellings, scoped); '
         'parse_config (flat, block, two statements, macro definition, %macro reference top-level '
         'or nested, unevaluated @M/gin.macro, @unknown() placeholder via skip_unknown=True '
         'top-level or nested, %gin.REQUIRED, a constant other than gin.REQUIRED, a reference to a '
@@ -81,6 +85,11 @@ ASSUMPTIONS = [
     'out-of-domain); whether a second finalize runs the hooks before raising; nested '
     '%gin.REQUIRED values (only top-level values are generated); the class of the exception a '
     'rejected finalize raises; names used as unknown references are never registered later',
+    'the object returned by gin.unlock_config() is also usable as a decorator (it is a '
+    'contextlib context manager) and every activation of it -- including several simultaneous '
+    'ones through recursion of the decorated function -- is an unlock_config block of its own; '
+    'one manager object is never re-used as a `with` target (a generator-based manager is '
+    'one-shot there, so pristine refuses it)',
     'interactive mode (gin.config.interactive_mode(), always the block form, never nested) only '
     'waives duplicate-name checks: it is not a way out of the lock, so every locked mutator must '
     'still raise RuntimeError and change nothing (a re-registered name must still resolve to the '
@@ -106,6 +115,7 @@ FLOORS = {
     'hyp:nontrivial': (0.05, 'gen:hyp'),
     'hyp:unlock:exit-by-exception-while-locked': (0.05, 'gen:hyp'),
     'hyp:unlock:nested-while-locked': (0.03, 'gen:hyp'),
+    'hyp:unlock:decorator-recursive-while-locked': (0.03, 'gen:hyp'),
     'hyp:locked:mutator-rejected': (0.15, 'gen:hyp'),
     'hyp:finalize:ok': (0.30, 'gen:hyp'),
     'hyp:finalize:twice': (0.05, 'gen:hyp'),
@@ -194,6 +204,7 @@ class _HookBoom(Exception):
 
 
 EXIT_NORMAL, EXIT_RAISE, EXIT_BASE, EXIT_GINCALL, EXIT_BREAK = range(5)
+EXIT_CAUGHT = 5   # decorator form only: the innermost level raises, the level above catches it
 RAISING = (EXIT_RAISE, EXIT_BASE, EXIT_GINCALL)
 
 PARSE_KINDS = ['flat', 'block', 'two', 'macrodef', 'macroref', 'macroref_nested', 'uneval',
@@ -363,6 +374,8 @@ class _Run:
         self.op_unlock(op, depth)
       elif kind == 'interactive':
         self.op_interactive(op, depth)
+      elif kind == 'unlock_rec':
+        self.op_unlock_rec(op, depth)
       elif kind == 'bind':
         self.op_bind(op)
       elif kind == 'parse':
@@ -835,6 +848,79 @@ class _Run:
       self.special_exit_seen = True
 
 
+  def op_unlock_rec(self, op, depth):
+    """['unlock_rec', levels, body, exit, calls]: ONE `gin.unlock_config()` manager object used
+    as a decorator on a function that re-enters itself `levels` (1..3) deep, so the same manager
+    is active several times at once; the innermost level runs `body` and leaves normally or by
+    an exception (propagating through every level, or caught by the level above); the decorated
+    function is called `calls` (1..2) times in a row.  Every level is an unlock_config block:
+    unlocked inside, and on leaving a level the lock state that held when it was entered is
+    back -- unlocked for the inner levels, the caller's state for the outermost."""
+    _, levels, body, exit_kind = op[:4]
+    levels = 1 + (levels - 1) % 3
+    calls = 1 + (op[4] - 1) % 2 if len(op) > 4 else 1
+    run = self
+
+    @gin.unlock_config()
+    def rec(level):
+      run.observe(f'unlock-decorator:level-{level}:inside')
+      if level == levels:
+        run.exec_ops(body, depth + 1)
+        if exit_kind in (EXIT_RAISE, EXIT_CAUGHT):
+          raise _Boom('innermost level failed')
+        if exit_kind == EXIT_BASE:
+          raise _BaseBoom('innermost level failed hard')
+        return level
+      held = run.locked                      # what holds on entry of the inner level
+      run.locked = False
+      try:
+        rec(level + 1)
+      except (Violation, OutOfDomain):
+        raise
+      except BaseException as e:
+        run.locked = held
+        run.observe(f'unlock-decorator:level-{level}:inner-level-left-by-exception')
+        if not (exit_kind == EXIT_CAUGHT and level == levels - 1 and isinstance(e, _Boom)):
+          raise
+        run.labels.add('unlock:decorator-inner-exception-caught')
+      else:
+        run.locked = held
+        run.observe(f'unlock-decorator:level-{level}:inner-level-returned')
+      return level
+
+    for _ in range(calls):
+      entry = self.locked
+      under_locked = entry or self.locked_entry_depth > 0
+      self.locked = False
+      if entry:
+        self.locked_entry_depth += 1
+      left_by = 'normal'
+      try:
+        rec(1)
+      except _Boom:
+        left_by = 'exception'
+      except _BaseBoom:
+        left_by = 'base-exception'
+      if entry:
+        self.locked_entry_depth -= 1
+      self.locked = entry
+      self.observe('unlock-decorator:exit-by-' + left_by)
+      self.labels.add('unlock:decorator')
+      self.labels.add('unlock:decorator-exit-' + left_by)
+      if levels > 1:
+        self.labels.add('unlock:decorator-recursive')
+      if entry:
+        self.labels.add('unlock:while-locked')
+        if levels > 1:
+          self.labels.add('unlock:decorator-recursive-while-locked')
+        if left_by != 'normal':
+          self.labels.add('unlock:exit-by-exception-while-locked')
+      if under_locked and (left_by != 'normal' or levels > 1 or depth > 0):
+        self.labels.add('unlock:nested-while-locked' if levels > 1 or depth > 0 else
+                        'unlock:decorator-raised-while-locked')
+        self.special_exit_seen = True
+
+
 def check_case(case):
   run = _Run()
   run.exec_ops(case['ops'], 0)
@@ -983,6 +1069,14 @@ def sweep_variants(tier):
                ['unlock', [['bind', 0, 2, 1, sp, 5], mm], EXIT_NORMAL], ['bind', 0, 2, 0, 0, 6],
                mm, ['finalize'], ['clear', 0], ['bind', 0, 2, 0, sp, 7], ['finalize', 1], mm,
                ['unlock', [], EXIT_RAISE], mm])
+  # (7) one unlock_config manager object used as a decorator on a self-re-entering function:
+  #     levels x exit path x (unlocked | locked) x body x 1-2 calls, then a mutation attempt
+  for levels in (1, 2, 3):
+    for exit_kind in (EXIT_NORMAL, EXIT_RAISE, EXIT_BASE, EXIT_CAUGHT):
+      for prefix in ([], [['finalize']]):
+        for body in ([], [_BIND1], [['finalize']]):
+          for calls in (1, 2):
+            add(prefix + [['unlock_rec', levels, body, exit_kind, calls], _BIND2, ['finalize']])
   return cases, True
 
 
@@ -1031,7 +1125,10 @@ def _ops(depth):
     exit_kind = st.sampled_from([EXIT_NORMAL, EXIT_NORMAL, EXIT_RAISE, EXIT_RAISE, EXIT_BASE,
                                  EXIT_GINCALL, EXIT_BREAK])
     pairs = pairs + [(5 if depth == 0 else 2, st.tuples(st.just('unlock'), body, exit_kind)),
-                     (2, st.tuples(st.just('interactive'), body))]
+                     (2, st.tuples(st.just('interactive'), body)),
+                     (2, st.tuples(st.just('unlock_rec'), st.integers(1, 3), body,
+                                   st.sampled_from([EXIT_NORMAL, EXIT_RAISE, EXIT_BASE,
+                                                    EXIT_CAUGHT]), st.integers(1, 2)))]
   return _weighted(pairs).map(list)
 
 
@@ -1068,7 +1165,13 @@ def _scenario(draw):
     exit_kind = draw(st.sampled_from([EXIT_NORMAL, EXIT_NORMAL, EXIT_RAISE, EXIT_BREAK]))
   else:
     exit_kind = draw(st.sampled_from([EXIT_RAISE, EXIT_RAISE, EXIT_BASE, EXIT_GINCALL]))
-  ops.append(['unlock', body, exit_kind])
+  if draw(st.integers(0, 2)) == 0:
+    # the same block as a decorated, self-re-entering function sharing one manager object
+    ops.append(['unlock_rec', draw(st.integers(2, 3)), body,
+                draw(st.sampled_from([EXIT_NORMAL, EXIT_RAISE, EXIT_BASE, EXIT_CAUGHT])),
+                draw(st.integers(1, 2))])
+  else:
+    ops.append(['unlock', body, exit_kind])
   if draw(st.booleans()):
     # interactive mode is not a way out of the restored lock
     reg = ['register', draw(st.integers(0, 2))] + draw(st.sampled_from([[], [1, 0], [1, 1], [2], [3]]))
